@@ -176,10 +176,23 @@ func genTraceState(r *vgen.Rand) string {
 			sb.WriteString(vgen.Pick(r, []string{",", " ", ", ", "\t"}))
 		}
 		return sb.String()
-	case 3: // duplicates
+	case 3: // duplicates, in any position and with optional whitespace around the separators
 		ms := validList(r, r.Intn(5)+2)
-		ms = append(ms, ms[r.Intn(len(ms))])
-		return strings.Join(ms, ",")
+		dup := ms[r.Intn(len(ms))]
+		if r.Bool() { // same key, different value
+			dup = dup[:strings.IndexByte(dup, '=')+1] + "dup"
+		}
+		at := r.Intn(len(ms) + 1)
+		ms = append(ms[:at], append([]string{dup}, ms[at:]...)...)
+		seps := []string{",", ",", " ,", ", ", " , ", ",\t", "\t,", ",  "}
+		var sb strings.Builder
+		for i, m := range ms {
+			if i > 0 {
+				sb.WriteString(vgen.Pick(r, seps))
+			}
+			sb.WriteString(m)
+		}
+		return sb.String()
 	case 4, 5: // arbitrary members incl. invalid ones
 		n := r.Intn(5) + 1
 		var ms []string
